@@ -152,6 +152,41 @@ def nonlinear_consistency(inst, env, cm, rm):
             out.append("nifty.re non-linear model: _kl_met %s is not the average metric %s over expansion point + residuals" % (met.tolist(), avg.tolist()))
     except Exception as ex:
         out.append("nifty.re non-linear model raised %s: %s" % (type(ex).__name__, str(ex)[:140]))
+    # the JAX driver's KL minimisation with constant keys: the functions handed to the minimiser are the averages restricted to the free keys
+    try:
+        lh2 = jft.Gaussian(rm.d, noise_cov_inv=lambda x: rm.ninv * x, noise_std_inv=lambda x: jnp.sqrt(rm.ninv) * x).amend(
+            lambda x: rm.fwd({"a": jnp.tanh(x["a"]) * x["b"][0], "b": jnp.exp(0.5 * x["b"])}), domain=jft.Vector({"a": jft.ShapeWithDtype((2,)), "b": jft.ShapeWithDtype((1,))}))
+        ham2 = okl._StandardHamiltonian(lh2)
+        m = pts[1]
+        smp2 = jft.Samples(pos=rm.pos(m), samples=jft.Vector({"a": jnp.asarray(arr[:, :2]), "b": jnp.asarray(arr[:, 2:3])}))
+        ovi = okl.OptimizeVI(lh2, 1, jit=False)
+        for K in (("a",), ("b",)):
+            free = [c for k in ("a", "b") if k not in K for c in KEYCOLS[k]]
+            got = {}
+
+            def capture(_, x0, fun_and_grad, hessp, **kw):
+                v, g = fun_and_grad(x0)
+                t = jax.tree_util.tree_map(lambda z: jnp.ones_like(z) * 0.5, x0)
+                got.update(v=float(v), g=np.concatenate([np.asarray(l).ravel() for l in jax.tree_util.tree_leaves(g)]),
+                           h=np.concatenate([np.asarray(l).ravel() for l in jax.tree_util.tree_leaves(hessp(x0, t))]),
+                           nfree=sum(np.asarray(l).size for l in jax.tree_util.tree_leaves(x0)))
+                return jft.optimize.OptimizeResults(x0, True, 0, v, g) if hasattr(jft, "optimize") else importlib.import_module("nifty.re.optimize").OptimizeResults(x0, True, 0, v, g)
+            kres = ovi.kl_minimize(smp2, minimize=capture, constants=K)
+            vs = [jax.value_and_grad(ham2)(rm.pos(m + a)) for a in arr]
+            gavg = np.mean([lg.ReModel.flat(x[1]) for x in vs], axis=0)[free]
+            tfull = np.zeros(3)
+            tfull[free] = 0.5
+            havg = np.mean([lg.ReModel.flat(ham2.metric(rm.pos(m + a), rm.pos(tfull))) for a in arr], axis=0)[free]
+            if got.get("nfree") != len(free):
+                out.append("nifty.re kl_minimize(constants=%s): the minimiser is started on %s parameters, the free keys have %d" % (list(K), got.get("nfree"), len(free)))
+            elif not np.isclose(got["v"], np.mean([float(x[0]) for x in vs]), rtol=1e-12) or not np.allclose(got["g"], gavg, rtol=1e-11, atol=1e-12):
+                out.append("nifty.re kl_minimize(constants=%s): value / gradient handed to the minimiser are not the averages over the samples" % (list(K),))
+            elif not np.allclose(got["h"], havg, rtol=1e-11, atol=1e-12):
+                out.append("nifty.re kl_minimize(constants=%s): metric handed to the minimiser gives %s, the average metric on the free keys gives %s" % (list(K), got["h"].tolist(), havg.tolist()))
+            if not np.allclose(lg.ReModel.flat(kres.x), m, atol=1e-14):
+                out.append("nifty.re kl_minimize(constants=%s): the returned position lost the constant keys" % (list(K),))
+    except Exception as ex:
+        out.append("nifty.re kl_minimize with constants raised %s: %s" % (type(ex).__name__, str(ex)[:160]))
     try:
         ift = cm.ift
         kle = importlib.import_module("nifty.cl.minimization.kl_energies")
